@@ -30,8 +30,104 @@ func init() {
 	})
 }
 
-// isNameValidator: a boolean function of one string that compares it with ".." and tests for '/'.
+// validatorAcceptEdges: the edges of fn on which the result of the validator call says "good"
+// (true for a predicate, nil for a check).
+func validatorAcceptEdges(fn *ssa.Function, call *ssa.Call) map[edge]bool {
+	acc := map[edge]bool{}
+	for _, b := range fn.Blocks {
+		iff := lastIf(b)
+		if iff == nil {
+			continue
+		}
+		if isErrorType(call.Type()) {
+			cm, truth, ok := cmpOf(iff.Cond)
+			if !ok || (cm.op != token.EQL && cm.op != token.NEQ) || !(isNilConst(cm.x) || isNilConst(cm.y)) {
+				continue
+			}
+			subj := cm.x
+			if isNilConst(cm.x) {
+				subj = cm.y
+			}
+			isCall := subj == ssa.Value(call) // (leaves() would look through a new helper into its returns)
+			for _, l := range leaves(subj) {
+				if l == ssa.Value(call) {
+					isCall = true
+				}
+			}
+			if !isCall {
+				continue
+			}
+			if (cm.op == token.EQL) == truth {
+				acc[edge{b, b.Succs[0]}] = true
+			} else {
+				acc[edge{b, b.Succs[1]}] = true
+			}
+			continue
+		}
+		if stripNot(iff.Cond) != ssa.Value(call) {
+			continue
+		}
+		_, truth, _ := cmpOf(iff.Cond)
+		if truth {
+			acc[edge{b, b.Succs[0]}] = true
+		} else {
+			acc[edge{b, b.Succs[1]}] = true
+		}
+	}
+	return acc
+}
+
+// isNameValidator: a function of one string that rejects ".." and '/': by its own tests
+// (isNameTest), or by handing the string to such a function and answering "good" only behind that
+// function's good edge (a check wrapped around a predicate: "if valid(name) { return nil }").
 func isNameValidator(f *ssa.Function) bool {
+	return isNameValidatorDepth(f, 0)
+}
+
+func isNameValidatorDepth(f *ssa.Function, depth int) bool {
+	if isNameTest(f) {
+		return true
+	}
+	if f == nil || f.Blocks == nil || len(f.Params) != 1 || f.Signature.Results().Len() != 1 || depth > 2 ||
+		!(isBool(f.Signature.Results().At(0).Type()) || isErrorType(f.Signature.Results().At(0).Type())) {
+		return false
+	}
+	acc := map[edge]bool{}
+	instrs(f, func(_ *ssa.BasicBlock, _ int, ins ssa.Instruction) {
+		call, ok := ins.(*ssa.Call)
+		if !ok || ins.Parent() != f || len(call.Call.Args) != 1 || call.Call.Args[0] != ssa.Value(f.Params[0]) {
+			return
+		}
+		g := call.Call.StaticCallee()
+		if g == nil || g == f || !isNameValidatorDepth(g, depth+1) {
+			return
+		}
+		for e := range validatorAcceptEdges(f, call) {
+			acc[e] = true
+		}
+	})
+	if len(acc) == 0 {
+		return false
+	}
+	reach := reachable(f, acc)
+	for _, r := range returnsOf(f) {
+		v := unspill(r, r.Results[0])
+		bad := false
+		if k, isK := v.(*ssa.Const); isK {
+			good := k.Value == nil || k.Value.ExactString() == "true"
+			bad = !good
+		} else if isErrorType(v.Type()) && constructedNonNil(v, r.Block(), 0) {
+			bad = true
+		}
+		if !bad && reach[r.Block()] {
+			return false // may answer "good" without the inner validator having said so
+		}
+	}
+	return true
+}
+
+// isNameTest: a boolean function of one string that compares it with ".." and tests for '/'.
+func isNameTest(f *ssa.Function) bool {
 	// a predicate (bool) or a check (error)
 	if f == nil || f.Blocks == nil || len(f.Params) != 1 || f.Signature.Results().Len() != 1 ||
 		!(isBool(f.Signature.Results().At(0).Type()) || isErrorType(f.Signature.Results().At(0).Type())) {
@@ -186,46 +282,8 @@ func c18NameSanitised(c *Ctx) {
 		}
 		validatorCalls[call] = true
 		validators = append(validators, fnKey(c.staticFn(call)))
-		for _, b := range fn.Blocks {
-			iff := lastIf(b)
-			if iff == nil {
-				continue
-			}
-			if isErrorType(call.Type()) {
-				// check form: the edge on which the returned error is nil
-				cm, truth, ok := cmpOf(iff.Cond)
-				if !ok || (cm.op != token.EQL && cm.op != token.NEQ) || !(isNilConst(cm.x) || isNilConst(cm.y)) {
-					continue
-				}
-				subj := cm.x
-				if isNilConst(cm.x) {
-					subj = cm.y
-				}
-				isCall := subj == ssa.Value(call) // (leaves() would look through a new helper into its returns)
-				for _, l := range leaves(subj) {
-					if l == ssa.Value(call) {
-						isCall = true
-					}
-				}
-				if !isCall {
-					continue
-				}
-				if (cm.op == token.EQL) == truth {
-					acc[edge{b, b.Succs[0]}] = true
-				} else {
-					acc[edge{b, b.Succs[1]}] = true
-				}
-				continue
-			}
-			if stripNot(iff.Cond) != ssa.Value(call) {
-				continue
-			}
-			_, truth, _ := cmpOf(iff.Cond)
-			if truth {
-				acc[edge{b, b.Succs[0]}] = true
-			} else {
-				acc[edge{b, b.Succs[1]}] = true
-			}
+		for e := range validatorAcceptEdges(fn, call) {
+			acc[e] = true
 		}
 	})
 	reach := reachable(fn, acc)
@@ -559,8 +617,32 @@ func c18UnlinkBeforeCreate(c *Ctx) {
 				okR := false
 				for _, g2 := range fnsDeep(fn) {
 					for _, rm := range calls(g2, isRemove) {
-						if instrDominates(rm.(ssa.Instruction), cr.(ssa.Instruction)) && sameValue(rm.Common().Args[0], cr.Common().Args[pa]) {
+						target := rm.Common().Args[0]
+						if instrDominates(rm.(ssa.Instruction), cr.(ssa.Instruction)) && sameValue(target, cr.Common().Args[pa]) {
 							okR = true
+						}
+						// the removal inside a new helper that is handed the name ("unlinkIfExists(dst)"):
+						// executed on every path through the helper, the helper called before the creation
+						if prm, isP := target.(*ssa.Parameter); isP && newHelpers[prm.Parent()] {
+							always := true
+							for _, ret := range returnsOf(prm.Parent()) {
+								if !rm.Block().Dominates(ret.Block()) {
+									always = false
+								}
+							}
+							if !always {
+								continue
+							}
+							for k, hp := range prm.Parent().Params {
+								if hp != prm {
+									continue
+								}
+								for _, cs := range helperSites[prm.Parent()] {
+									if cs.Parent() == cr.Parent() && k < len(cs.Common().Args) && sameValue(cs.Common().Args[k], cr.Common().Args[pa]) && instrDominates(cs, cr.(ssa.Instruction)) {
+										okR = true
+									}
+								}
+							}
 						}
 					}
 				}
